@@ -9,7 +9,7 @@
 (***************************************************************************)
 EXTENDS HexSrec, Json
 
-CONSTANTS Fmts, Seeds, MaxRecs, AllowMixed, NCorrupt, Lens
+CONSTANTS Fmts, Seeds, MaxRecs, AllowMixed, NCorrupt, Lens, Subst0
 
 VARIABLES fmt, rs, rnd, st
 vars == <<fmt, rs, rnd, st>>
@@ -17,7 +17,7 @@ vars == <<fmt, rs, rnd, st>>
 Rb(x, k)    == RndByte(LcgAt(x, k))
 Rd(x, k, w) == Tup([i \in 1..w |-> Rb(x, k + i)])
 Adv(x)      == LcgAt(x, 47)
-SeedRange   == 0..511
+SeedRange   == 0..127
 
 NData == Cardinality({k \in DOMAIN rs : IF fmt = "hex" THEN rs[k].type = 0 ELSE rs[k].type \in {1, 2, 3}})
 Has(ty) == \E k \in DOMAIN rs : rs[k].type = ty
@@ -38,8 +38,13 @@ NewSrec(ty, len) ==
     [] OTHER            -> [type |-> ty, addr |-> IF Rb(rnd, 5) % 4 = 0 THEN <<0, 0, 0, 0>> ELSE Widen(Rd(rnd, 1, al), 4), data |-> <<>>]
 
 Init == /\ fmt \in Fmts /\ rnd \in Seeds /\ rs = <<>> /\ st = "body"
+\* fmt = "raw" (C15 only): the file is its own memory image at address 0 (first byte 0x90 so that no format claims it)
+AddRaw ==
+  /\ st = "body" /\ fmt = "raw"
+  /\ \E len \in Lens : rs' = << [type |-> 0, addr |-> 0, data |-> <<144>> \o Rd(rnd, 1, len)] >>
+  /\ rnd' = Adv(rnd) /\ st' = "done" /\ UNCHANGED fmt
 AddRec ==
-  /\ st = "body" /\ Len(rs) < MaxRecs
+  /\ st = "body" /\ fmt # "raw" /\ Len(rs) < MaxRecs
   /\ \E len \in Lens :
      \/ /\ fmt = "hex"
         /\ \E ty \in {0, 2, 3, 4, 5} :
@@ -54,19 +59,19 @@ AddRec ==
              /\ rs' = Append(rs, NewSrec(ty, len))
   /\ rnd' = Adv(rnd) /\ UNCHANGED <<fmt, st>>
 Finish ==
-  /\ st = "body" /\ Len(rs) > 0
+  /\ st = "body" /\ fmt # "raw" /\ Len(rs) > 0
   /\ \/ fmt = "hex" /\ rs' = Append(rs, [type |-> 1, addr |-> 0, data |-> <<>>])
      \/ fmt = "srec" /\ \E ty \in {7, 8, 9} : rs' = Append(rs, NewSrec(ty, 0))
   /\ rnd' = Adv(rnd) /\ st' = "done" /\ UNCHANGED fmt
-Next == AddRec \/ Finish
+Next == AddRec \/ Finish \/ AddRaw
 Spec == Init /\ [][Next]_vars
 
 (* ---- M ---------------------------------------------------------------------*)
-Alphabet == {48, 49, 50, 51, 52, 53, 54, 55, 56, 57, 65, 66, 67, 68, 69, 70, 71, 90, 32, Colon, CharS}
+Alphabet == Subst0   \* the replacement characters tried at every position (a constant: a subset of the printable characters)
 SameRec(p, r) == /\ p.ok /\ p.type = r.type /\ p.data = r.data
                  /\ IF fmt = "hex" THEN p.addr = r.addr ELSE p.addr = Widen(r.addr, 4)
-RoundTrip == st = "done" => \A k \in DOMAIN rs : SameRec(Parse(fmt, Line(fmt, rs[k])), rs[k])
-Detect == st = "done" =>
+RoundTrip == st = "done" /\ fmt # "raw" => \A k \in DOMAIN rs : SameRec(Parse(fmt, Line(fmt, rs[k])), rs[k])
+Detect == st = "done" /\ fmt # "raw" =>
   \A k \in DOMAIN rs : LET t == Line(fmt, rs[k]) IN
     \A i \in DOMAIN t : \A c \in Alphabet \ {t[i]} :
        Parse(fmt, Subst(t, i, c)).ok => (fmt = "srec" /\ i = 2)
@@ -83,13 +88,18 @@ Corruption(L, j) ==
       c0 == AlphaSeq[1 + (Rb(x, 5) % Len(AlphaSeq))]
       c  == IF c0 = L[k][i] THEN (IF c0 = 49 THEN 50 ELSE 49) ELSE c0
   IN [line |-> k - 1, pos |-> i - 1, ch |-> c, verdict |-> ParsedRec(Parse(fmt, Subst(L[k], i, c)))]
-Emit == st = "done" =>
+EmitRaw == LET d == rs[1].data  blk == << [a |-> <<0, 0, 0, 0>>, d |-> d] >> IN
+  PrintT(ToJson([fmt |-> fmt, lines |-> <<d>>, recs |-> <<>>, rt |-> TRUE, blocks |-> blk, finals |-> blk, entry |-> NoEntry,
+                 mixed |-> FALSE, corrupt |-> <<>>]))
+Emit == st = "done" => IF fmt = "raw" THEN EmitRaw ELSE
   LET L == Tup([k \in 1..Len(rs) |-> Line(fmt, rs[k])])
       D == Decode(fmt, rs)
   IN PrintT(ToJson([fmt |-> fmt, lines |-> L,
                     recs |-> Tup([k \in 1..Len(rs) |-> ParsedRec(Parse(fmt, L[k]))]),
                     rt |-> \A k \in DOMAIN rs : SameRec(Parse(fmt, L[k]), rs[k]),
                     blocks |-> D.blocks, entry |-> D.entry,
+                    finals |-> Tup([k \in 1..Len(D.blocks) |->          \* what each block's range reads as once all are written
+                                     [a |-> D.blocks[k].a, d |-> ViewAfter(Unmapped(Len(D.blocks[k].d)), D.blocks[k].a, D.blocks, 1)]]),
                     mixed |-> (fmt = "hex" /\ HexMixed(rs)),
                     corrupt |-> Tup([j \in 1..NCorrupt |-> Corruption(L, j)])]))
 =============================================================================
